@@ -44,26 +44,27 @@ Record sst := mk_sst {
   s_inq : list chunk;    (* chunks the client has not sent yet *)
   s_held : list nat;     (* replies staged in the drain buffer (frame ids) *)
   s_werr : bool;
-  s_trace : list tev     (* newest first *)
+  s_trace : list tev;    (* newest first *)
+  s_served : nat         (* ghost: frames whose handler has run *)
 }.
 
-Definition st0 (c : tconn) : sst := mk_sst 0 0 0 0 (tc_chunks c) [] false [].
+Definition st0 (c : tconn) : sst := mk_sst 0 0 0 0 (tc_chunks c) [] false [] 0.
 Definition emit (st : sst) (e : tev) : sst :=
-  mk_sst (s_now st) (s_deadline st) (s_armed st) (s_avail st) (s_inq st) (s_held st) (s_werr st) (e :: s_trace st).
+  mk_sst (s_now st) (s_deadline st) (s_armed st) (s_avail st) (s_inq st) (s_held st) (s_werr st) (e :: s_trace st) (s_served st).
 Definition set_deadline (st : sst) (d : Z) : sst :=
-  mk_sst (s_now st) d (s_armed st) (s_avail st) (s_inq st) (s_held st) (s_werr st) (s_trace st).
+  mk_sst (s_now st) d (s_armed st) (s_avail st) (s_inq st) (s_held st) (s_werr st) (s_trace st) (s_served st).
 Definition set_now (st : sst) (t : Z) : sst :=
-  mk_sst t (s_deadline st) (s_armed st) (s_avail st) (s_inq st) (s_held st) (s_werr st) (s_trace st).
+  mk_sst t (s_deadline st) (s_armed st) (s_avail st) (s_inq st) (s_held st) (s_werr st) (s_trace st) (s_served st).
 Definition set_avail (st : sst) (a : Z) (q : list chunk) : sst :=
-  mk_sst (s_now st) (s_deadline st) (s_armed st) a q (s_held st) (s_werr st) (s_trace st).
+  mk_sst (s_now st) (s_deadline st) (s_armed st) a q (s_held st) (s_werr st) (s_trace st) (s_served st).
 Definition set_held (st : sst) (h : list nat) (werr : bool) : sst :=
-  mk_sst (s_now st) (s_deadline st) (s_armed st) (s_avail st) (s_inq st) h werr (s_trace st).
+  mk_sst (s_now st) (s_deadline st) (s_armed st) (s_avail st) (s_inq st) h werr (s_trace st) (s_served st).
 
 (* tcpStream.arm: one SetDeadline, and only when the bound changed *)
 Definition arm (st : sst) : sst :=
   if s_armed st =? s_deadline st then st
   else mk_sst (s_now st) (s_deadline st) (s_deadline st) (s_avail st) (s_inq st) (s_held st) (s_werr st)
-              (TSetDeadline (s_now st) (s_deadline st) :: s_trace st).
+              (TSetDeadline (s_now st) (s_deadline st) :: s_trace st) (s_served st).
 
 (* tcpStream.beforeWrite *)
 Definition before_write (st : sst) : sst := arm (set_deadline st (s_now st + w_write)).
@@ -153,15 +154,19 @@ Definition before_read (c : tconn) (st : sst) (wait : Z) : sst * bool :=
   else let st1 := arm (set_deadline st (s_now st + wait)) in flush c st1.
 
 (* serveFrame for an accepted header: Server.ServeRaw and the chain *)
+Definition count_served (st : sst) : sst :=
+  mk_sst (s_now st) (s_deadline st) (s_armed st) (s_avail st) (s_inq st) (s_held st) (s_werr st) (s_trace st) (S (s_served st)).
+
 Definition serve_frame (c : tconn) (qt rt : Z) (st : sst) (id : nat) (f : tframe) : sst :=
-  if tf_miss f then
+  count_served
+  (if tf_miss f then
     (* leaving the strict path: FlushStaged = beforeWrite; flush (its error is dropped) *)
     let '(st1, _) := flush c (before_write st) in
     (* the resolution, cut at the request's deadline = read time + query timeout *)
     let st2 := set_now st1 (Z.max (s_now st1) (Z.min (s_now st1 + tf_delay f) (rt + qt))) in
     (* a resolution that ran out of budget is answered with the (small) deadline SERVFAIL *)
     stage c st2 id (tf_big f && (s_now st1 + tf_delay f <? rt + qt))
-  else stage c st id false.
+  else stage c st id false).
 
 (* the deferred last flush of serveConn, then conn.Close *)
 Definition finish (c : tconn) (st : sst) : sst :=
